@@ -215,6 +215,44 @@ def run(fx, tier):
         v.check(aborted and loops and never, 'R-CGRAPH', 'async_mutex::cancel [%s]' % f.tu,
                 'every waiter is popped and completed with operation_aborted, never inline (aborted=%s pops=%s never=%s)' % (aborted, loops, never),
                 key='C11:R-CGRAPH:async_mutex::cancel', where=f.file)
+    # coalescing of triggers: a failed I/O asks for a reconnect OF THE STREAM IT RAN ON (the pointer captured when the I/O
+    # was started, handed to the continuation); reconnect_op compares it with the current stream and answers try_again
+    # without connecting when that stream was already replaced.  Passing the CURRENT stream makes every stale failure look
+    # fresh: a redundant attempt tears down the connection that was just established.
+    n_tr = 0
+    for cls_, tag_ in (('read_op', 'on_read'), ('write_op', 'on_write')):
+        for f in fx.functions(cls=cls_, name='operator()', tag=tag_):
+            for b_, i_, l_, c_ in f.calls():
+                if callee_name(c_) != 'async_reconnect':
+                    continue
+                n_tr += 1
+                a0 = strip(f.resolve(c_['args'][0]) if isinstance(c_['args'][0], dict) and c_['args'][0].get('k') == 'elem' else c_['args'][0])
+                for _ in range(4):
+                    if isinstance(a0, dict) and a0.get('k') in ('ctor', 'move', 'icast', 'cast') and (a0.get('args') or a0.get('e')):
+                        a0 = strip(a0['args'][0] if a0.get('args') else a0['e'])
+                        a0 = strip(f.resolve(a0)) if isinstance(a0, dict) and a0.get('k') == 'elem' else a0
+                ok = isinstance(a0, dict) and a0.get('k') == 'ref' and a0.get('dk') == 'param'
+                v.check(ok, 'R-PAIR', '%s::operator()(%s)%s:reconnect-of-own-stream [%s]' % (cls_, tag_, f.inst()[:30], f.tu),
+                        'async_reconnect is asked for the stream this I/O was started on (the continuation parameter)%s' % (
+                            '' if ok else ' — NOT: %s' % (a0.get('n') if isinstance(a0, dict) else a0)),
+                        key='C11:R-PAIR:%s:reconnect-of-own-stream' % cls_, where='%s:%s' % (f.path_file(), l_))
+    if n_tr < 2:
+        raise AnalysisBroken('read_op/write_op: async_reconnect call sites not found')
+    # ... and reconnect_op does compare it with the current stream before connecting
+    for f in fx.functions(cls='reconnect_op', name='operator()', tag='on_locked'):
+        stale = False
+        for b_ in f.blocks:
+            cond = f.term_cond(b_) if f.blocks[b_].term else None
+            if cond is None:
+                continue
+            cm = comparison(origin(f, cond), 'T')
+            if cm and cm[0] in ('==', '!=') and contains([cm[1], cm[2]], lambda n: n.get('k') == 'mem' and n.get('n') == '_stream_ptr') \
+                    and contains([cm[1], cm[2]], lambda n: n.get('k') == 'ref' and n.get('dk') in ('param',) or n.get('k') == 'paramof'):
+                stale = True
+        v.check(stale, 'R-PAIR', 'reconnect_op::operator()(on_locked)%s:stale-trigger-test [%s]' % (f.inst()[:30], f.tu),
+                'the lock holder compares the stream it was asked to replace with the current one before connecting',
+                key='C11:R-PAIR:reconnect_op:stale-trigger-test', where=f.file)
+
     v.expect_min('R-OWN', 10, 'creation / call sites')
     v.expect_min('R-PAIR', 40, 'lock-holder paths')
     v.expect_min('R-DOM', 4, 'connect-starting paths of on_locked')
